@@ -339,7 +339,25 @@ func CLI(args []string) int {
 
 // RequiredQuick: counters (summary.json: per_fork.<fork>.<k> for "<fork>.<k>", else counts.<k>) that must be non-zero in
 // every quick run.
+// HonestFeatureTotals: honest-producer features (per-fork counters <fork>.<k>) whose sum over the forks must be non-zero in every
+// quick run — each was introduced for, or is relied on by, a seeded-defect trial.
+var HonestFeatureTotals = []string{
+	"att_wrong_head", "att_duplicate_of_earlier", "att_double_vote_same_block", "att_double_vote_later_block",
+	"sync_full", "sync_most", "sync_half", "sync_few", "sync_none",
+	"pslash_pre_fork_headers", "exit_pre_fork_epoch", "aslash_pre_fork_target", "pslash_of_block_proposer",
+	"joint_boundary_exit", "joint_boundary_blschange", "joint_boundary_pslash_pre_fork", "joint_boundary_aslash_pre_fork",
+	"eth1_vote_reaches_exactly_half", "eth1_vote_garbage", "deposits_capped", "blocks_deposits_no_exits", "blocks_with_all_ops",
+	"withdrawal_sweep_wrap", "payload_empty_premerge", "payload_merge_block", "exit_timed_for_sync_boundary",
+}
+
 var RequiredQuick = []string{
+	// round 14: honest features that seeded-defect trials rely on
+	"deneb.att_beyond_epoch_correct_target", "deneb.att_beyond_epoch_wrong_target",
+	"altair.sync_at_first_slot_of_fork", "bellatrix.sync_at_first_slot_of_fork", "capella.sync_at_first_slot_of_fork", "deneb.sync_at_first_slot_of_fork",
+	"phase0.att_late", "altair.att_late", "bellatrix.att_late", "capella.att_late", "deneb.att_late",
+	"phase0.att_wrong_target", "altair.att_wrong_target", "bellatrix.att_wrong_target", "capella.att_wrong_target", "deneb.att_wrong_target",
+	"altair.att_pre_fork_target", "bellatrix.att_pre_fork_target", "capella.att_pre_fork_target", "deneb.att_pre_fork_target",
+	"deposit_fork_topup_credited_after_conflict", "deposit_fork_side_topup_credited", "partial_depositors_topped_up",
 	// round 13: the corruption coverage itself is derived from the table (RequiredCover, cover.go); the two kinds outside the table:
 	"corrupt.random_bytes", "corrupt.wrong_pre_state",
 	// round 12
@@ -477,11 +495,17 @@ func Summarize(results []ChainResult, seed uint64, tier string, secs float64) ma
 		return other[k]
 	}
 	for _, f := range ForkNames {
+		for _, k := range HonestFeatureTotals {
+			other[k+"_total"] += perFork[f][k]
+		}
 		other["aslash_overlapping_pairs_total"] += perFork[f]["aslash_overlapping_pairs"]
 		other["pslash_evidence_epoch_outside_window_total"] += perFork[f]["pslash_evidence_epoch_outside_window"]
 		other["aslash_evidence_epoch_outside_window_total"] += perFork[f]["aslash_evidence_epoch_outside_window"]
 	}
 	required := append(append([]string(nil), RequiredQuick...), RequiredCover()...)
+	for _, k := range HonestFeatureTotals {
+		required = append(required, k+"_total")
+	}
 	for _, k := range required {
 		if get(k) == 0 {
 			reqMissing = append(reqMissing, k)
